@@ -96,6 +96,7 @@ class StoreSim:
         self.pending_reject: dict = {}   # sid -> info about a rejected add (for close/reopen codes)
         self.iters: dict = {}            # live iterators: id -> {it, sess, pos, done}
         self.gc_lazy = False             # True: no collection between operations (garbage accumulates)
+        self.held: list = []             # (sid, idx, trajectory object) kept like a caller would
         self.fsfaults = None             # installed by the fault engine
         self._install_clock()
 
@@ -145,6 +146,8 @@ class StoreSim:
                 props = ['C08', 'C09']
         if code.startswith('reject.') and features.get('kind') in ID_KINDS:
             props = ['C10', 'C08']
+        if code.startswith('reject.') and features.get('kind') in ('cache_overflow', 'oversize'):
+            props = ['C10', 'C07']   # a refusal by the cache is also C07's "refuses the addition
         raise OracleFailure({
             'code': code, 'props': props, 'features': feats, 'detail': detail[:600],
             'op_index': self.step_no,
@@ -197,7 +200,13 @@ class StoreSim:
     def _check_read(self, sess: MSession, idx: int, traj, served: str, via: str = 'get'):
         rows = self._rows(sess)
         exp = rows[idx]
-        got = G.snapshot(traj)
+        try:
+            got = G.snapshot(traj)
+        except Exception as e:  # noqa: BLE001
+            # the returned object cannot even be inspected field by field
+            self.fail('get.field_mismatch' if via != 'lookup' else 'lookup.wrong_item',
+                      f'index {idx}: returned trajectory has an unreadable field: {type(e).__name__}: {e}',
+                      sess, field='?', shape='?', served_from=served, via=via)
         vis = self._visible_fields(sess)
         r = G.compare(exp, got, vis)
         feats = dict(
@@ -277,6 +286,11 @@ class StoreSim:
         self.trace.log(self.step_no, {k: v for k, v in rec.items() if k != 'traj'},
                        rec.get('traj', {}).get('cs') if isinstance(rec.get('traj'), dict) else None)
         self._check_len_all()
+        try:
+            self._check_held()
+        except OracleFailure as of:
+            of.v.setdefault('failing_op', None)
+            raise
         return True
 
     # ------------------------------------------------------------- operations
@@ -423,6 +437,7 @@ class StoreSim:
             n = len(sess.store)
             if n != before:
                 self.fail('inmem.state_changed', f'len {n} after refused add, was {before}', sess)
+            self.pending_reject[sess.sid] = dict(kind='cache_overflow', mode=sess.kind)
             return f'overflow:{type(e).__name__}'
         self.fail('inmem.accepted', 'in-memory store accepted an addition beyond its budget', sess)
 
@@ -454,7 +469,32 @@ class StoreSim:
                       old_index=idx < sess.len_at_open, exc=type(e).__name__)
         h = self._check_read(sess, idx, traj, served)
         self._note_read(sess, idx, served)
+        self._hold(sess, idx, traj)
         return h
+
+    # -- references the caller keeps: a trajectory handed out must stay what it was
+    def _hold(self, sess, idx, traj):
+        self.held.append((sess.sid, idx, traj))
+        if len(self.held) > 6:
+            self.held.pop(0)
+
+    def _check_held(self):
+        for sid, idx, traj in list(self.held):
+            sess = self.sessions.get(sid)
+            if sess is None:
+                self.held = [h for h in self.held if h[0] != sid]
+                continue
+            try:
+                self._check_read(sess, idx, traj, 'held', via='held')
+            except OracleFailure as of:
+                # an object handed out earlier changed afterwards (e.g. when the cache evicted
+                # it): both "reads back equal" (C03) and "holds regardless of cache size" (C07)
+                of.v['features']['held_reference'] = True
+                if of.v['code'] == 'get.wrong_item':
+                    of.v['code'] = 'get.field_mismatch'
+                of.v['props'] = ['C03', 'C07'] if sess.kind != 'merged' else ['C03', 'C09']
+                raise
+            self.probes['held_reference_rechecked'] += 1
 
     def _note_read(self, sess, idx, served):
         if served == 'file':
@@ -475,6 +515,7 @@ class StoreSim:
             return None
         rows = self._rows(sess)
         n = 0
+        yielded = []
         try:
             it = iter(sess.store)
             while True:
@@ -487,7 +528,16 @@ class StoreSim:
                     self.fail('iter.length', f'iteration yielded more than {len(rows)} items', sess)
                 self._check_read(sess, n, traj, served, via='iter')
                 self._note_read(sess, n, served)
+                yielded.append(traj)
                 n += 1
+            # list(store): every yielded object must still be what it was when it was yielded
+            for i, traj in enumerate(yielded):
+                try:
+                    self._check_read(sess, i, traj, 'held', via='iter')
+                except OracleFailure as of:
+                    of.v['features']['held_reference'] = True
+                    of.v['props'] = ['C03', 'C07'] if sess.kind != 'merged' else ['C03', 'C09']
+                    raise
         except OracleFailure as of:
             if of.v['code'] == 'get.wrong_item':
                 of.v['code'] = 'iter.order'
@@ -612,10 +662,20 @@ class StoreSim:
         sess = self.sessions.get(op['sess'])
         if sess is None:
             return None
+        how = op.get('how', 'close')
         try:
-            sess.store.close()
+            if how == 'exit':
+                sess.store.__exit__(None, None, None)
+            elif how == 'exit_exc':
+                # leaving a `with` block while an exception (e.g. from the caller's own code, or a
+                # rejected addition) propagates: the store is closed all the same
+                exc = KeyError('caller error')
+                sess.store.__exit__(KeyError, exc, None)
+                self.probes['closed_by_exit_with_exception'] += 1
+            else:
+                sess.store.close()
         except Exception as e:  # noqa: BLE001
-            if sess.sid in self.pending_reject:
+            if sess.sid in self.pending_reject and sess.kind != 'mem':
                 self.fail('reject.breaks_close', f'close after rejected add: {type(e).__name__}: {e}', sess,
                           **self.pending_reject[sess.sid])
             if sess.kind == 'mem':
@@ -781,6 +841,12 @@ class StoreSim:
         elif kind in ID_KINDS:
             if not f.exists or f.ident is None or f.ident == has_id or fs != sorted(f.all_fs):
                 return None
+        elif kind == 'oversize':
+            # larger than the whole cache: refused by the cache itself
+            if fs != sorted(f.all_fs) or (f.ident is not None and f.ident != has_id) or not f.exists:
+                return None
+            if G.est_nbytes(spec.get('fs', []), spec['n']) <= sess.cache_mb * 1024 * 1024:
+                return None
         else:
             return None
         had_proto = len(getattr(sess.store, '_trajectories', ())) > 0
@@ -839,6 +905,85 @@ class StoreSim:
                     self.fail('reject.state_changed', f'lookup raised {type(e).__name__}: {e}', sess, what='lookup', **info)
                 if t is None:
                     self.fail('reject.state_changed', f'lookup of id {s["fid"]} lost', sess, what='lookup', **info)
+
+    # -- a save that must be refused (existing target), then the store is saved elsewhere ------
+    def op_save_invalid(self, op):
+        sess = self.sessions.get(op['sess'])
+        if sess is None or sess.kind != 'mem' or not sess.mem_rows:
+            return None
+        taken = self.path('taken_by_someone_else.nc')
+        if not os.path.exists(taken):
+            with open(taken, 'wb') as f:
+                f.write(b'occupied')
+        fs_all = list(sess.visible_fs)
+        assoc = [(a, [x for x in fs if x in fs_all]) for a, fs in op.get('assoc', [])]
+        assoc = [(a, fs) for a, fs in assoc if fs and a not in self.files and not os.path.exists(self.path(a))]
+        kw = {}
+        if assoc:
+            kw['associated_files'] = [(self.path(a), list(fs)) for a, fs in assoc]
+        before = len(sess.mem_rows)
+        try:
+            sess.store.save(taken, **kw)
+        except Exception as e:  # noqa: BLE001
+            refused = type(e).__name__
+        else:
+            self.fail('reject.accepted', 'save() onto an existing file was accepted', sess, kind='save_existing')
+        for a, _fs in assoc:
+            if os.path.exists(self.path(a)):
+                self.fail('reject.state_changed', f'refused save() created {a}', sess, kind='save_existing', what='files')
+        if len(sess.store) != before:
+            self.fail('reject.state_changed', 'length changed by a refused save()', sess, kind='save_existing', what='len')
+        self.probes['save_refused'] += 1
+        return f'refused:{refused}'
+
+    # -- two CREATE-mode stores for one path; the second one's first addition must be refused ---
+    def op_dup_create(self, op):
+        from AEIC.trajectories import TrajectoryStore
+
+        name = op['file']
+        if name in self.files or self.sessions or os.path.exists(self.path(name)):
+            return None
+        f = MFile(name, op.get('group', 0), list(op.get('base_fs', [])), [])
+        a = TrajectoryStore.create(base_file=self.path(name), cache_size_mb=op.get('cache', 2048))
+        b = TrajectoryStore.create(base_file=self.path(name), cache_size_mb=op.get('cache', 2048))
+        try:
+            for spec in op['a_trajs']:
+                t = G.build_traj(spec)
+                snap = G.snapshot(t)
+                a.add(t)
+                f.rows.append(snap)
+                f.specs.append(dict(spec))
+            a.close()
+        except Exception as e:  # noqa: BLE001
+            self.fail('add.valid_refused', f'dup_create: first store failed: {type(e).__name__}: {e}', mode='create')
+        f.exists = True
+        f.ident = f.specs[0].get('fid') is not None
+        f.base_fs = list(f.specs[0].get('fs', []))
+        used = set()
+        for lst in f.specs[0].get('species', {}).values():
+            used.update(lst)
+        f.species = [s_ for s_ in G.SPECIES_NAMES if s_ in used]
+        f.sessions_seen = 1
+        self.files[name] = f
+        info = dict(kind='file_exists', mode='create', first=True)
+        f.__dict__['reject_info'] = info
+        try:
+            r = b.add(G.build_traj(op['b_traj']))
+        except Exception as e:  # noqa: BLE001
+            refused = type(e).__name__
+        else:
+            try:
+                b.close()
+            except Exception:  # noqa: BLE001
+                pass
+            self.fail('reject.accepted', f'second CREATE store for an existing file accepted an addition '
+                      f'(returned {r})', **info)
+        try:
+            b.close()
+        except Exception as e:  # noqa: BLE001
+            self.fail('reject.breaks_close', f'close after refused add: {type(e).__name__}: {e}', **info)
+        self.probes['reject_file_exists'] += 1
+        return f'refused:{refused}'
 
     # -- save (in-memory -> files) ---------------------------------------------
     def op_save(self, op):
